@@ -193,6 +193,9 @@ func runC11(r *vhlib.Run) {
 				}
 				s.Plain = plain
 				s.Data = ref.ZDeflate([]ref.ZOp{{Data: plain, Flush: 4}}, 9, 15, 8+rng.Intn(2), 0)
+				if s.Data == nil {
+					continue
+				}
 			}
 			trailer := vhlib.RandBytes(rng, rng.Intn(9))
 			if len(trailer) == 0 && i%3 != 0 {
